@@ -399,7 +399,7 @@ def mirror_concurrent(c, monitors, what, quick=(12, 8), thorough=(120, 12)):
         return
     ncases, nops = quick if c.tier == "quick" else thorough
     cases, stats, crashes = run_harness(c, binary, c.seed + 77, ncases, nops, extra=["-consumers", "-concurrent"], batch=3, base=300000)
-    for cr in crashes[:2]:
+    for cr in [x for x in crashes if x["rc"] != 3][:2]:   # exit status 3 = the harness gave up on a hung kernel (reported below)
         m = re.search(r"panic: (.*)", cr["stderr"])
         c.report("concurrent-crash", "%s: the real mirror died under concurrent callers: %s" % (what, (m.group(1) if m else "exit %s" % cr["rc"])[:200]),
                  {"batch_seed": cr["batch_seed"], "stderr": cr["stderr"][-1200:],
